@@ -113,8 +113,8 @@ EmptyOnlyCases ==
   Concat([q \in 1..4 |->
     LET ty == <<22, 23, 49, 13172>>[q] IN
     Concat([w \in 1..3 |->
-      [d \in 1..2 |-> [kind |-> "emptyonly", fn |-> FnOf(Whichs[w]), which |-> Whichs[w],
-                       bytes |-> EncExtRaw(ty, <<<<0>>, <<1, 2, 3>>>>[d]), val |-> 0, extra |-> 0]]])])
+      [d \in 1..5 |-> [kind |-> "emptyonly", fn |-> FnOf(Whichs[w]), which |-> Whichs[w],
+                       bytes |-> EncExtRaw(ty, <<<<0>>, <<1, 2, 3>>, <<1, 0>>, <<2, 104, 50>>, <<2, 104, 50, 1, 9>>>>[d]), val |-> 0, extra |-> 0]]])])
   \o [q \in 1..4 |-> [kind |-> "emptyonly",
                       fn |-> <<"parse_tls_extension_encrypt_then_mac", "parse_tls_extension_extended_master_secret",
                                "parse_tls_extension_encrypt_then_mac", "parse_tls_extension_extended_master_secret">>[q],
